@@ -284,6 +284,14 @@ type omap struct {
 	n       int
 	dead    int
 	nonIdx  int // live entries not in idx (symbolic or aggregate keys)
+	raceLoc *value // the map as one location of the race detector (concurrent map read/write is fatal in Go)
+}
+
+func (m *omap) loc() *value {
+	if m.raceLoc == nil {
+		m.raceLoc = new(value)
+	}
+	return m.raceLoc
 }
 
 func usesBuiltinMap(t types.Type) bool {
